@@ -38,7 +38,42 @@ SB = 'pexpect.spawnbase.SpawnBase.'
 PTYC = 'pexpect.pty_spawn.spawn.'
 FDC = 'pexpect.fdpexpect.fdspawn'
 
+POP = 'pexpect.popen_spawn.PopenSpawn.'
+
 PROPS = {
+    'C04': {
+        'contracts': [E + 'eof', E + 'timeout', E + 'errored', E + 'existing_data', E + 'expect_loop', SS + '__init__', SR + '__init__',
+                      SB + 'expect_list', SB + 'expect_loop'],
+        'assumptions': [
+            'spawn.read_nonblocking is used through its interface contract (data | EOF | TIMEOUT | other OSError); that a transport reports EOF again without blocking after the first EOF is not under contract here (pty: blocking isalive() inside ptyprocess, see DESIGN.md section 7 #10)',
+            'str(spawn) / str(searcher) used to build the exception message are assumed total here (spawn.__str__ is not yet under contract)',
+            'expect(), expect_exact(), read(), readline() delegate to the entry points above and are not separately under contract in this check',
+        ],
+    },
+    'C05': {
+        'contracts': [E + 'expect_loop', SB + 'expect_list', SB + 'expect_loop'],
+        'assumptions': [
+            'ghost clock (DESIGN.md 5.4): time.time() reads it, time.sleep(d) advances it by d, read_nonblocking(size, t) advances it by at most max(t, 0) and raises TIMEOUT only after t has elapsed; pure computation costs nothing',
+            'the deadline bound is proved on the ghost clock relative to the read_nonblocking interface contract; that each transport meets that interface (select/poll wrappers, waitnoecho, PopenSpawn polling) is not yet under contract in this check',
+            'termination with timeout=None is liveness and is not claimed',
+        ],
+    },
+    'C09': {
+        'contracts': [PTYC + 'isalive', PTYC + 'wait', PTYC + 'terminate', PTYC + 'close', POP + 'wait'],
+        'assumptions': [
+            "ptyprocess 0.7.0 (contracts written from its source): isalive() returns False exactly when the child has been reaped and then freezes status/exitstatus/signalstatus at the child's real fate; wait() likewise; close(force) closes the descriptor and reaps the child or raises PtyProcessError",
+            'that waitpid reports the real fate of the child is the kernel / ptyprocess; run() with withexitstatus is covered under C12',
+        ],
+    },
+    'C10': {
+        'contracts': [PTYC + 'isalive', PTYC + 'wait', PTYC + 'kill', PTYC + 'terminate', PTYC + 'close',
+                      'pexpect.fdpexpect.fdspawn.close', 'pexpect.fdpexpect.fdspawn.isalive'],
+        'assumptions': [
+            'ptyprocess 0.7.0 contracts as for C09; os.kill / os.close / os.fstat as system calls (may raise OSError)',
+            'descriptor tables and zombies are kernel state: "no leak" is relative to the ptyprocess contract; __del__ / garbage collection timing is not modelled',
+            'SocketSpawn.close / isalive and terminate(force=True) always succeeding against stopped children are not under contract in this check',
+        ],
+    },
     'C08': {
         'contracts': _transport_contracts(['send', 'sendline', 'write', 'writelines']) +
                      [PTYC + 'sendcontrol', PTYC + 'sendeof', PTYC + 'sendintr'],
@@ -103,7 +138,8 @@ PROPS = {
         ],
     },
     'C01': {
-        'contracts': [E + 'do_search', E + 'existing_data', E + 'new_data', E + 'eof', E + 'timeout', E + 'errored', E + 'expect_loop'],
+        'contracts': [E + 'do_search', E + 'existing_data', E + 'new_data', E + 'eof', E + 'timeout', E + 'errored', E + 'expect_loop',
+                      SB + '_set_buffer', SB + 'expect_list', SB + 'expect_loop'],
         'assumptions': [
             'io.BytesIO/StringIO behave as (content, position) with write-at-position, read-to-end, seek, tell, getvalue (differentially tested against CPython in the thorough tier)',
             'str/bytes slicing, concatenation and len follow CPython semantics (integers mathematical)',
